@@ -195,6 +195,8 @@ pub const CORPUS: &[&str] = &[
     "a + b + c\nx.y.z(1)\nf()()\n",
     // comments are named children of whatever they sit in
     "f(a, # first\n  b)\n# top\nx = [1, # one\n     2]\ndef g(p, # p\n      q):\n    # body\n    return p\n",
+    // MISSING nodes in field positions
+    "for b in :\n    pass\nwith :\n    pass\nx = a[]\n",
     // carriage returns and tabs
     "a = 1\r\nb = 2\r\nc = \"x\"\r\n",
     "def f():\n\tx = (1, 2)\n\tif x:\n\t\treturn x\n",
